@@ -134,15 +134,14 @@ def r10a(ctx, repo):
         nrest += 1
         plain = isinstance(st, ast.Assign) and isinstance(st.value, ast.Subscript) and ast.unparse(st.value.value) == vals_attr
         ctx.check(plain, "R10a", app, st, "restore assigns the saved entry as it is", "`%s` restores a function of the saved entry (`%s`), not the entry itself: a timed compartment restarted from it has lost who entered when, so the restarted trajectory departs from the original" % (norm(st)[:70], ast.unparse(st.value)[:50]))
-        extra = []
-        for t, pol in guards_of(st, stop=la):
-            tt = ast.unparse(t)
-            if tt == "isinstance(%s, TimedCompartment)" % cv_a:
-                continue
-            if isinstance(t, ast.Compare) and len(t.ops) == 1 and isinstance(t.ops[0], (ast.In, ast.NotIn)) and ast.unparse(t.comparators[0]) == vals_attr:
-                continue
-            extra.append("%s is %s" % (tt, pol))
-        ctx.check(not extra, "R10a", app, st, "restore depends only on the compartment kind and the presence of the key", "`%s` is restored only when %s: under the other outcome the saved state is replaced by something else (spread evenly, dropped ...), so a restart does not continue the original trajectory" % (norm(st)[:60], " and ".join(extra)), stmt_text="restore-guard:" + norm(st)[:60])
+        from ..core import boolx as B
+
+        ksub = [x for x in ast.walk(st.value) if isinstance(x, ast.Subscript) and ast.unparse(x.value) == vals_attr]
+        key = ast.unparse(ksub[0].slice)
+        timed = "_vals" in ast.unparse(tgt)
+        want = B.parse_cond("%sisinstance(%s, TimedCompartment) and (%s) in %s" % ("" if timed else "not ", cv_a, key, vals_attr))
+        got = B.cond(guards_of(st, stop=la))
+        ctx.check(B.equivalent(got, want), "R10a", app, st, "restored exactly when the key is present (per compartment kind)", "`%s` is executed under a condition that differs from `%s compartment and its key is in the saved values` (e.g. when %s): under the other outcome the saved state is replaced by something else (spread evenly, dropped, zeroed ...), so a restart does not continue the original trajectory" % (norm(st)[:60], "timed" if timed else "ordinary", B.counterexample(got, want)), stmt_text="restore-guard:" + norm(st)[:60])
     ctx.require(nrest >= 2, "R10a: fewer restores from self.values in Initialization.apply (%d) than confirmed (2)" % nrest)
     # apply writes index 0 only
     for s, t, k, v in astq.stores(app.node):
@@ -152,6 +151,21 @@ def r10a(ctx, repo):
     # capture index comes from the requested year
     idx = [s for s in own_nodes(cap.node) if isinstance(s, ast.Assign) and "== year" in ast.unparse(s.value).replace("(", "").replace(")", "")]
     ctx.check(bool(idx), "R10a", cap, idx[0] if idx else cap.node, "capture index is the position of the requested year", "the capture index is not derived from the requested year")
+    if idx:
+        v = idx[0].value
+        iname = ast.unparse(idx[0].targets[0])
+        okx = isinstance(v, ast.Subscript) and isinstance(v.value, ast.Subscript) and ast.unparse(v.slice) == "0" and ast.unparse(v.value.slice) == "0" and isinstance(v.value.value, ast.Call) and ast.unparse(v.value.value.func) in ("np.nonzero", "np.where") and isinstance(v.value.value.args[0], ast.Compare) and isinstance(v.value.value.args[0].ops[0], ast.Eq) and sorted([ast.unparse(v.value.value.args[0].left), ast.unparse(v.value.value.args[0].comparators[0])]) == sorted(["year", "%s.model.t" % cap.params[1]])
+        ctx.check(okx, "R10a", cap, idx[0], "index = first position where the model time equals the year", "`%s` is not the first position at which res.model.t equals the requested year: the state is captured at another time" % norm(idx[0])[:80], stmt_text="capture-index")
+        reads = [n for n in ast.walk(lc) if isinstance(n, ast.Subscript) and isinstance(n.value, ast.Attribute) and n.value.attr in ("vals", "_vals") and isinstance(n.ctx, ast.Load)]
+        okr = bool(reads) and all(ast.unparse(K.time_index_of(n)) == iname for n in reads)
+        ctx.check(okr, "R10a", cap, lc, "every captured value is read at that index", "a compartment is captured at an index other than `%s`" % iname, stmt_text="capture-reads")
+        last = [s for s in own_nodes(cap.node) if isinstance(s, ast.Assign) and astq.is_name(s.targets[0], "year")]
+        okl = len(last) == 1 and ast.unparse(last[0].value) == "%s.model.t[-1]" % cap.params[1] and any(pol and ast.unparse(t) == "year is None" for t, pol in guards_of(last[0]))
+        ctx.check(okl, "R10a", cap, last[0] if last else cap.node, "default year = the last simulated time", "without a year the state is not captured at the last simulated time point", stmt_text="capture-default")
+    # compartments absent from the saved state start empty
+    zs = [st for st in ast.walk(la) if isinstance(st, ast.Assign) and isinstance(st.targets[0], ast.Subscript) and ast.unparse(astq.strip_subs(st.targets[0])).startswith(cv_a + ".") and not any(isinstance(x, ast.Subscript) and ast.unparse(x.value) == vals_attr for x in ast.walk(st.value))]
+    for st in zs:
+        ctx.check(ast.unparse(st.value) in ("0", "0.0"), "R10a", app, st, "a compartment without a saved entry starts empty", "`%s` gives a compartment that has no saved entry a non-zero size" % norm(st), stmt_text="absent-zero:" + norm(st)[:40])
 
 
 def r10b(ctx, repo):
